@@ -37,7 +37,7 @@ type aval struct {
 var unknown = aval{}
 
 func constVal(v constant.Value) aval { return aval{k: avConst, c: v} }
-func boolVal(b bool) aval           { return constVal(constant.MakeBool(b)) }
+func boolVal(b bool) aval            { return constVal(constant.MakeBool(b)) }
 
 func (a aval) String() string {
 	switch a.k {
@@ -67,8 +67,12 @@ func (a aval) String() string {
 	return "?"
 }
 
-func (a aval) isTrue() bool  { return a.k == avConst && a.c.Kind() == constant.Bool && constant.BoolVal(a.c) }
-func (a aval) isFalse() bool { return a.k == avConst && a.c.Kind() == constant.Bool && !constant.BoolVal(a.c) }
+func (a aval) isTrue() bool {
+	return a.k == avConst && a.c.Kind() == constant.Bool && constant.BoolVal(a.c)
+}
+func (a aval) isFalse() bool {
+	return a.k == avConst && a.c.Kind() == constant.Bool && !constant.BoolVal(a.c)
+}
 
 type env map[types.Object]aval
 
@@ -164,17 +168,17 @@ type hypo interface {
 }
 
 type evaluator struct {
-	c       *Ctx
-	h       hypo
-	decls   map[*types.Func]*ast.FuncDecl
-	infos   map[*types.Func]*types.Info
-	stack   []*types.Func
-	steps   int
-	budget  int
-	notes   map[string]bool // constructs outside the subset that were met
-	watch   map[string]bool // callee names to record as events
-	watchLit string         // a string constant whose evaluation is recorded as an event
-	readsIn map[ast.Node]bool
+	c        *Ctx
+	h        hypo
+	decls    map[*types.Func]*ast.FuncDecl
+	infos    map[*types.Func]*types.Info
+	stack    []*types.Func
+	steps    int
+	budget   int
+	notes    map[string]bool // constructs outside the subset that were met
+	watch    map[string]bool // callee names to record as events
+	watchLit string          // a string constant whose evaluation is recorded as an event
+	readsIn  map[ast.Node]bool
 }
 
 func newEvaluator(c *Ctx, h hypo) *evaluator {
@@ -213,7 +217,7 @@ func dedupe(rs []eres) []eres {
 	seen := map[string]bool{}
 	var out []eres
 	for _, r := range rs {
-		k := fmt.Sprintf("%v|%v|%s|%s", r.noret, r.spin, r.v.String(), r.st.env.key())
+		k := fmt.Sprintf("%v|%v|%s|%s|%s", r.noret, r.spin, r.v.String(), r.st.env.key(), traceKey(r.st.tr))
 		if seen[k] {
 			continue
 		}
